@@ -172,4 +172,52 @@ theorem clearLastDelay_spec (rows : List Row) (r : Row) :
     clearLastDelay (rows ++ [r]) = rows ++ [{ r with delay := 0, timeDelay := 0 }] := by
   simp [clearLastDelay]
 
+/-! ## track and channel gating (handleEvent) -/
+
+/-- the timing events that are never gated: tempo and time signature of track 0 in format 0/1 files -/
+def isTrack0Timing (s : Seq) (track : Nat) (e : Ev) : Bool :=
+  track == 0 && s.smfFormat < 2 && e.type == tSpecial && (e.subtype == stTempo || e.subtype == stTimeSig)
+
+/-- **a disabled track contributes nothing**: its events reach neither the raw event hook nor the synthesizer and leave the
+    sequencer state alone — except the tempo / time-signature events of track 0 -/
+theorem disabled_track_silent (s : Seq) (track : Nat) (e : Ev) (st : Int)
+    (hd : s.trackDisable.getD track false = true) (ht : isTrack0Timing s track e = false) :
+    handleEvent s track e st = (s, st, []) := by
+  unfold handleEvent
+  unfold isTrack0Timing at ht
+  simp only [ht, Bool.not_false, Bool.true_and, hd, Bool.or_true, if_true]
+
+/-- the same for every track but the solo track -/
+theorem non_solo_track_silent (s : Seq) (track solo : Nat) (e : Ev) (st : Int)
+    (hs : s.solo = some solo) (hne : track ≠ solo) (ht : isTrack0Timing s track e = false) :
+    handleEvent s track e st = (s, st, []) := by
+  unfold handleEvent
+  unfold isTrack0Timing at ht
+  have : (track != solo) = true := by simpa using hne
+  simp only [ht, Bool.not_false, Bool.true_and, hs, this, Bool.true_or, if_true]
+
+/-- **tempo events of track 0 still apply** when track 0 is disabled: the tempo is taken over (and the event is shown to the
+    raw event hook) -/
+theorem track0_tempo_applies (s : Seq) (e : Ev) (st : Int) (hf : s.smfFormat < 2)
+    (he : e.type = tSpecial) (hsub : e.subtype = stTempo) (t : Frac) (hm : Frac.mul s.invDelta { n := readBE e.data, d := 1 } = .ok t) :
+    handleEvent s 0 e st = ({ s with tempo := t }, st, [Out.event 0 e]) := by
+  unfold handleEvent
+  have h1 : (e.type == tSysEx || e.type == tSysEx2) = false := by rw [he]; decide
+  have h2 : (e.subtype == stEndTrack) = false := by rw [hsub]; decide
+  simp [hf, he, hsub, hm, tSpecial, tSysEx, tSysEx2, stTempo, stEndTrack, stTimeSig]
+
+/-- **a disabled channel receives no notes**: a note-on or note-off for a disabled MIDI channel (no device offset) is shown to
+    the raw event hook but never reaches the synthesizer -/
+theorem disabled_channel_no_notes (s : Seq) (track : Nat) (e : Ev) (st : Int)
+    (hsolo : s.solo = none) (hd : s.trackDisable.getD track false = false)
+    (hn : e.type = tNoteOn ∨ e.type = tNoteOff) (hdev : currentDevice s track = 0) (hch : e.channel < 16)
+    (hc : s.chanDisable.getD e.channel false = true) :
+    (handleEvent s track e st).2.2 = [Out.event track e] := by
+  unfold handleEvent
+  have hd' : s.trackDisable[track]?.getD false = false := by simpa [List.getD_eq_getElem?_getD] using hd
+  have hc' : s.chanDisable[e.channel]?.getD false = true := by simpa [List.getD_eq_getElem?_getD] using hc
+  rcases hn with hn | hn
+  · simp [hn, hsolo, hd', hdev, hch, hc', tNoteOn, tNoteOff, tSpecial, tSysEx, tSysEx2, tSongSel, tSongPos]
+  · simp [hn, hsolo, hd', hdev, hch, hc', tNoteOn, tNoteOff, tSpecial, tSysEx, tSysEx2, tSongSel, tSongPos]
+
 end Opn.C07
